@@ -307,9 +307,13 @@ def gen_programs(tier):
                     lv = [Leaf(i) for i in range(4)]
                     lv[pos] = Leaf(pos, *v)
                     add(mk(lv))
-    return progs
+    # interleave, so that every contiguous chunk (= partition) mixes all program families: the programs the
+    # parser rejects cluster by shape and would otherwise fill a whole partition (vacuous twin)
+    n = _NCHUNKS[tier]
+    return [progs[j] for r in range(n) for j in range(r, len(progs), n)]
 
 
+_NCHUNKS = {"quick": 32, "thorough": 64}
 _COMPILED = {}
 REJECTED = {}
 
@@ -578,7 +582,7 @@ OBLIGATIONS = [
                "operand, every natural-precedence chain of 4 and 5 bare operands; thorough: 21x21 variants for 2 operands, "
                "3 operands with every variant, 4 operands with one varied operand, 6-operand natural chains; exit codes unbounded ints",
         pre=["lo <= prog < hi", "kz == 0"],
-        parts={"quick": _chunks("quick", 32), "thorough": _chunks("thorough", 64)},
+        parts={"quick": _chunks("quick", _NCHUNKS["quick"]), "thorough": _chunks("thorough", _NCHUNKS["thorough"])},
         timeout={"quick": 240, "thorough": 2400},
         path_timeout=20,
         regions={"C05-operand-truthiness": _region_truthiness},
